@@ -25,6 +25,7 @@ def combine_cases(ctx, vectors1, n, seed, fam="req", mode="random"):
     cases, seen = [], set()
     key = "pa" if fam == "req" else "ra"
     val = "pv" if fam == "req" else "rv"
+    vectors1 = [v for v in vectors1 if v[key][0]["nest"] not in hg.WHOLE]
     byloc = {}
     for v in vectors1:
         byloc.setdefault(v[key][0]["loc"], []).append(v)
@@ -88,6 +89,10 @@ def sample_shapes(vectors, frac, seed, strata="fine"):
     return [v for v in vectors if h(v)[0] / 256.0 < frac or hg.shape_key(v) in forced]
 
 
+def is_whole(attrs):
+    return len(attrs) == 1 and attrs[0]["nest"] in hg.WHOLE
+
+
 def scenario_for(v, sid, svc, meth):
     pa, ra = v["pa"], v["ra"]
     payload = {}
@@ -95,12 +100,33 @@ def scenario_for(v, sid, svc, meth):
         c = hg.concrete(a, v["pv"][i])
         if c is not None:
             payload["a%d" % (i + 1)] = c
+    if is_whole(pa):
+        payload = hg.concrete(pa[0], v["pv"][0])
     result = {}
     for j, a in enumerate(ra):
         c = hg.concrete(a, v["rv"][j])
         if c is not None:
             result["r%d" % (j + 1)] = c
+    if is_whole(ra):
+        result = hg.concrete(ra[0], v["rv"][0])
     return {"id": sid, "service": svc, "method": meth, "payload": payload, "outcome": {"kind": "result", "value": result}}
+
+
+def whole_where(a, wire, name):
+    """where a payload / result that is one value travels: its element, or the body as a whole"""
+    s = set()
+    q = wire.get("query") or {}
+    h = {k.lower(): x for k, x in (wire.get("headers") or {}).items()}
+    if hg.ELEM["query"](name) in q:
+        s.add("query")
+    if hg.ELEM["header"](name).lower() in h:
+        s.add("header")
+    body = (wire.get("body") or "").strip()
+    if body and body != "null" and body not in ("[]", "{}"):
+        s.add("body")
+    if a["loc"] == "path":
+        s.add("path")
+    return sorted(s)
 
 
 def project(v, events):
@@ -113,18 +139,23 @@ def project(v, events):
             o["anomalies"].append(bad)
     wr = hg.find(events, "wire_req")
     if wr:
-        o["where"] = hg.observed_where([("a%d" % (i + 1), a["loc"]) for i, a in enumerate(pa)], wr[0])
+        if is_whole(pa):
+            o["where"] = [whole_where(pa[0], wr[0], "a1")]
+        else:
+            o["where"] = hg.observed_where([("a%d" % (i + 1), a["loc"]) for i, a in enumerate(pa)], wr[0])
         o["uri"] = wr[0].get("uri")
     inv = hg.find(events, "invoke")
     if inv:
         o["invoked"] = True
         o["invocations"] = len(inv)
-        dp = inv[0].get("payload") or {}
+        dp = inv[0].get("payload")
+        if not is_whole(pa) and not isinstance(dp, dict):
+            dp = {}
         cls = []
         for i, a in enumerate(pa):
             sent = hg.concrete(a, v["pv"][i])
             dflt = hg.concrete(a, hg.default_of(a)) if a["mode"] == "default" else None
-            cls.append(hg.classify(dp.get("a%d" % (i + 1)), sent, dflt))
+            cls.append(hg.classify(dp if is_whole(pa) else dp.get("a%d" % (i + 1)), sent, dflt))
         o["delivered"] = cls
         o["delivered_raw"] = dp
     wp = hg.find(events, "wire_resp")
@@ -137,6 +168,8 @@ def project(v, events):
                 o["errname"] = json.loads(w.get("body") or "{}").get("name", "none")
             except Exception:
                 o["errname"] = "unparseable"
+        elif is_whole(ra):
+            o["rwhere"] = [whole_where(ra[0], w, "r1")]
         else:
             o["rwhere"] = hg.observed_where([("r%d" % (j + 1), a["loc"]) for j, a in enumerate(ra)], w)
     cr = hg.find(events, "client_return")
@@ -144,12 +177,15 @@ def project(v, events):
         c = cr[0]
         if c.get("err") is None:
             o["cerr"] = "result"
-            res = c.get("res") or {}
+            res = c.get("res")
+            if not is_whole(ra) and res is None:
+                res = {}
             cls = []
             for j, a in enumerate(ra):
                 sent = hg.concrete(a, v["rv"][j])
                 dflt = hg.concrete(a, hg.default_of(a)) if a["mode"] == "default" else None
-                cls.append(hg.classify(res.get("r%d" % (j + 1)) if isinstance(res, dict) else None, sent, dflt))
+                got = res if is_whole(ra) else (res.get("r%d" % (j + 1)) if isinstance(res, dict) else None)
+                cls.append(hg.classify(got, sent, dflt))
             o["returned"] = cls
             o["returned_raw"] = res
         else:
